@@ -639,6 +639,31 @@ func ruleCopyLimit(c *Ctx) {
 			add(key, b.posOf(lastInstr(conj2)), bad == "", "every return whose error can be the size error lies on the over-limit edge (or passes on the budget function's error)", bad)
 		}
 
+		// (xi) a copy that takes place is charged: the handler reports success only behind the
+		// accumulation (or the budget function's call). A branch that installs the copy some
+		// other way — as the new root, say — and returns leaves that copy out of the total.
+		{
+			key := "(xi) the copy handler reports success only after the copy was charged"
+			bad := ""
+			ei := errResultIndex(h)
+			for _, r := range liveReturns(h) {
+				if ei < 0 || !isNilConst(retVal(r, ei)) {
+					continue
+				}
+				charged := false
+				if gcall != nil && b.instrDominates(gcall, r) {
+					charged = true
+				}
+				if st != nil && st.Parent() == h && b.instrDominates(st, r) {
+					charged = true
+				}
+				if !charged {
+					bad = "the success return at " + b.posOf(r) + " is not preceded by the addition to the running total on every path: a copy can take place without being counted"
+				}
+			}
+			add(key, b.rel(h.Pos()), bad == "", "every nil-error return of the handler is dominated by the accumulation", bad)
+		}
+
 		// (vi) a copy that cannot take place is not charged, and its own failure is what is reported:
 		// the accumulation happens only after both locations have been resolved (every
 		// findObject call of the handler has answered with a container)
@@ -744,6 +769,21 @@ func ruleCopyLimit(c *Ctx) {
 			add("(i) other operations never count towards the total", b.rel(ai.fn.Pos()), len(others) == 0, "no other handler receives a *int64", "handlers "+strings.Join(others, ",")+" also receive a *int64 running total")
 		}
 
+		// (xii) the package default of the limit is 0: Apply with the defaults never refuses a
+		// patch for what it copies (a default of 32 MiB makes patches that RFC 6902 evaluates
+		// successfully fail)
+		if g, _ := b.Lib.Members["AccumulatedCopySizeLimit"].(*ssa.Global); g != nil {
+			key := "(xii) the package default of AccumulatedCopySizeLimit is 0 (no limit unless the caller sets one)"
+			bad := ""
+			for _, st := range b.globalStores(g) {
+				if st.Parent() != nil && st.Parent().Name() == "init" {
+					if k, isK := intConst(st.Val); !isK || k != 0 {
+						bad = "the package initialiser stores " + describeValue(st.Val) + " at " + b.posOf(st) + ": with the defaults a patch that copies more than that is refused"
+					}
+				}
+			}
+			l.add("R-COPYLIMIT", b.Name, key, b.rel(g.Pos()), map[bool]string{true: Discharged, false: Violated}[bad == ""], map[bool]string{true: "zero value, or initialised with the constant 0", false: bad}[bad == ""], true)
+		}
 		// (v) NewApplyOptions copies the package defaults
 		if nao := fnOf(b.Lib, "NewApplyOptions"); nao != nil {
 			for _, fld := range []string{"AccumulatedCopySizeLimit", "SupportNegativeIndices"} {
